@@ -66,6 +66,9 @@ def main(chk):
                     for i in pop.insts:
                         i.state = None
                 cases.append((lib, base, ws, 'none', 'conforming file'))
+                if pi == 0 and not ws:
+                    for (data, op, construct) in mutate.p21_token_cuts(base, 400 if quick else 1500):
+                        cases.append((lib, data, ws, op, construct))
                 for (data, op, construct) in mutate.p21_mutants(base, rng, n_tok if not ws else n_tok // 2, n_trunc if not ws else n_trunc // 4):
                     cases.append((lib, data, ws, op, construct))
     # seed-independent pathological shapes + exhaustive short parameter strings on the first library
